@@ -7,7 +7,13 @@ import Operon.Gen.MitoCaps
     setal <allowed> [container]                      -- `engine.allowed_capabilities = …` on the live engine
     reg <name> <body> <req: none | - | list> <caps: none | - | list> <raises 0/1> [style]
     unreg <name>
-    redecl <name> <req> <caps>                       -- attributes re-assigned on the live tool object
+    redecl <name> <req> <caps> [a|i] [also:<e>:<name>,..]   -- attributes re-assigned (a) / the declared set mutated in
+                                                     --   place (i) on the live tool object; `also` = recorded by the
+                                                     --   harness: the other (engine, name) pairs holding that object
+    setal <allowed> <container> i                    -- the ceiling set object mutated in place
+    eng <i> [<allowed> [container]]                  -- from now on the lines address engine <i> (constructed with that
+                                                     --   ceiling at its first mention)
+    share <name> <j>                                 -- the engine in use engulfs the object engine <j> holds under <name>
     schemas
     arm <slot> reg <name> <body> <req> <caps> <raises> [style]   -- script slot <slot>: registry operations performed
     arm <slot> unreg <name>                                      --   each time the slot fires (appended per line)
@@ -19,13 +25,17 @@ import Operon.Gen.MitoCaps
     call <name> [@s1,s2]                             -- slots fired by evaluating `**call.arguments`
     callx <name> <k> [@s1,s2]                        -- SEARCH ONLY: a call object whose `name` is a property firing the
                                                      --   slots at its k-th read; answered `skip`, as is every later line
+    nest <body> <name>                               -- SEARCH ONLY: the callable <body> requests tool <name> from the
+                                                     --   engine whenever it runs; answered `skip`, as is every later line
     loop <maxIter> <auto 0/1> [idmode] <rounds: r1;r2;...  each r = e1,e2 or - ; e = ^slot (provider fires the slot
         before answering) | name | name@s1@s2>
   observation: result + execution log (body ids) -/
 open Operon Operon.Proto Operon.MitoTools
 
 structure DSt where
-  st : St := {}
+  st : St := {}               -- the engine in use
+  cur : Nat := 0
+  parked : List (Nat × St) := []   -- the other engines alive (they share callables and handed-over tool objects)
   slots : List (Nat × List RegOp) := []
   skip : Bool := false      -- after a search-only line the model no longer follows the registry: lines answer `skip`
 
@@ -93,15 +103,48 @@ def callLine (d : DSt) (n : String) (ops : List RegOp) : DSt × String :=
   let infl := if s'.reg != d.st.reg then " inflight" else ""
   ({ d with st := s' }, s!"{showRes r} {showLog s'} ## call-{kindOf r}{infl}")
 
+def engineOf (d : DSt) (j : Nat) : Option St :=
+  if j = d.cur then some d.st else (d.parked.find? (fun p => p.1 == j)).map (·.2)
+
+/-- `also:1:w,0:f` → re-declare the same object where else it is registered -/
+def alsoRedeclare (d : DSt) (spec : String) (req caps : Option (List Cap)) : DSt :=
+  ((spec.drop 5).toString.splitOn ",").foldl (fun (d : DSt) e =>
+    match e.splitOn ":" with
+    | [j, n] =>
+      if natD j = d.cur then { d with st := { d.st with reg := d.st.reg.redeclare n req caps } }
+      else { d with parked := d.parked.map fun p =>
+               if p.1 == natD j then (p.1, { p.2 with reg := p.2.reg.redeclare n req caps }) else p }
+    | _ => d) d
+
 def step (d : DSt) (toks : List String) : DSt × String :=
   let g := Operon.Gen.MitoCaps.guards
   if d.skip && toks.head? != some "cfg" then (d, "skip") else
   match toks with
   | "callx" :: _ => ({ d with skip := true }, "skip")   -- search-only (see harness): not modelled
-  | ["cfg", al] => ({ st := init (capsOf al) }, "ok")
+  | "nest" :: _ => ({ d with skip := true }, "skip")    -- search-only: a tool body that requests a tool from the engine
+  | ["cfg", al] => ({ st := init (capsOf al) }, "ok")          -- forgets every engine
   | ["cfg", al, _container] => ({ st := init (capsOf al) }, "ok")   -- container type of the ceiling: irrelevant
   | ["setal", al] => ({ d with st := { d.st with allowed := capsOf al } }, "ok")
   | ["setal", al, _container] => ({ d with st := { d.st with allowed := capsOf al } }, "ok")
+  | ["setal", al, _container, _inplace] => ({ d with st := { d.st with allowed := capsOf al } }, "ok")
+  | "eng" :: i :: rest =>
+    if !(i.all Char.isDigit) || i.isEmpty || natD i ≥ 4 then (d, "bad-op")
+    else if natD i = d.cur then (d, "ok")
+    else
+      let al := match rest with
+        | a :: _ => capsOf a
+        | [] => none
+      let next : St := match engineOf d (natD i) with
+        | some s => s
+        | none => init al
+      ({ d with st := next, cur := natD i,
+                parked := (d.parked.filter (fun p => p.1 != natD i)) ++ [(d.cur, d.st)] }, "ok")
+  | ["share", n, j] =>
+    if !(j.all Char.isDigit) || j.isEmpty then (d, "bad-op")
+    else if natD j = d.cur then (d, "ok")
+    else match (engineOf d (natD j)).bind (fun s => s.reg.lookup n) with
+      | some t => ({ d with st := { d.st with reg := d.st.reg.set n t } }, "ok")
+      | none => (d, "ok")
   | "reg" :: rest =>
     match parseRegOp ("reg" :: rest) with
     | some op => ({ d with st := { d.st with reg := d.st.reg.apply op } }, "ok")
@@ -109,6 +152,11 @@ def step (d : DSt) (toks : List String) : DSt × String :=
   | ["unreg", n] => ({ d with st := { d.st with reg := d.st.reg.erase n } }, "ok")
   | ["redecl", n, req, caps] =>
     ({ d with st := { d.st with reg := d.st.reg.redeclare n (capsOf req) (capsOf caps) } }, "ok")
+  | ["redecl", n, req, caps, _mode] =>
+    ({ d with st := { d.st with reg := d.st.reg.redeclare n (capsOf req) (capsOf caps) } }, "ok")
+  | ["redecl", n, req, caps, _mode, also] =>
+    (alsoRedeclare { d with st := { d.st with reg := d.st.reg.redeclare n (capsOf req) (capsOf caps) } } also
+      (capsOf req) (capsOf caps), "ok")
   | ["body", b, spec] =>                           -- from now on the callable <b> fires these slots whenever it runs
     ({ d with st := { d.st with effects := d.st.effects ++ [(natD b, slotSpec d spec)] } }, "ok")
   | ["schemas"] => (d, "ok")                       -- export_tool_schemas / list_tools: must not change anything
